@@ -40,7 +40,11 @@ def check_case(sink, c, o):  # noqa: C901
             return
         leaves, spec = optree.tree_flatten(c.tree, **kw)
         # 1. rebuild
-        rebuilt = spec.unflatten(leaves)
+        try:
+            rebuilt = spec.unflatten(leaves)
+        except Exception as e:  # noqa: BLE001
+            sink.violation(f'roundtrip/unflatten-raises/{type(e).__name__}', 'unflatten(flatten(t)) is the same tree', ident, repr(e)[:300])
+            return
         d = same.diff(c.tree, rebuilt, leaf_ids=leaf_ids)
         sink.check(d is None, 'roundtrip/not-same', 'unflatten(flatten(t)) is the same tree', ident, d)
         rebuilt_b = optree.tree_unflatten(spec, iter(leaves))
